@@ -8,7 +8,7 @@ Object: the UNMODIFIED translator sources (guard off), built with ASan + UBSan's
 UBSan arithmetic checks are not part of this property (DESIGN §1.7) and are not enabled in the deciding build.
 """
 import os, shutil, glob
-from vlib import env, e2e, wasm, hostile, san
+from vlib import env, e2e, wasm, hostile, san, gen
 
 LEVEL = 'fault_enumeration'
 RULE = ('translator process runs under ASan+UBSan(memory kinds); evaluation = one run (input, options) or (input, truncation point); '
@@ -94,6 +94,17 @@ def main(chk):
         dst = os.path.join(indir, 'h%03d.wasm' % i)
         open(dst, 'wb').write(b)
         inputs.append(('hostile:' + cls, dst, b))
+    # the module identifier used throughout the generated C is derived from the INPUT FILE NAME: the same small modules (one with calls,
+    # call_indirect and imports; one tiny) under file names of many lengths and shapes
+    cg = gen.build_program_module(env.rng('c10-longname'), gen.Profile(w_call=3.0), n_funcs=6)
+    tiny = hostile.many_funcs(3, 'some')
+    for mi, mb_ in enumerate((cg.mod.encode(), tiny.encode())):
+        for stem in ['M' * 63, 'M' * 64, 'N' * 65, 'abc' * 33, 'Q' * 128, 'z9' * 100, 'L' * 250, 'a.b-c d' * 12, '_' * 70, 'X' * 80, '\u00e9' * 60, '0' + 'd' * 90]:
+            dst = os.path.join(indir, '%s%d.wasm' % (stem, mi))
+            if len(os.path.basename(dst).encode()) > 255:
+                continue
+            open(dst, 'wb').write(mb_)
+            inputs.append(('hostile:longfilename-%d' % len(stem), dst, mb_))
     other = os.path.join(indir, 'coremark.wasm')
     chk.observe('inputs', len(inputs), 'set')
 
